@@ -195,5 +195,8 @@ theorem lock_scan_discriminates :
 -- OPEN (not modelled, hence not stated): "whole handler" totality including the backend —
 -- ProcessNewHeader / PostCheckBlock / mempool matching / peer database; and the send-buffer
 -- pause path of processGetData. The statement above is about the parsing layer only.
+-- OPEN: lock ORDER between functions (deadlock freedom across threads) and freedom from data races on
+-- fields other than the ones gen_c18 tags as shared accesses; the lock scan is per function and
+-- path-insensitive. Both are only exercised dynamically (fulldb stream, concurrent child process).
 
 end GocoinV.Props.C18
